@@ -21,6 +21,13 @@ Kernels (DESIGN.md section 4, C14):
       documentation of the transformers denotes, and as_lines delivers exactly the lines of that text.
       Text and REPLACEMENT STRING symbolic.
 
+  K7  line-oriented transformers on DEGENERATE texts (the empty text, white space only, one unterminated line, several
+      final new-lines; text symbolic over {space, tab, LF, a}): every variant of `strip`, `char-case`, `filter` by line
+      number / contents (`grep`) / -line-nums (also from the end), `replace` that deletes or produces white space, alone
+      and every ordered pair of them, below a str / a file / a cache: every access route delivers the documented text,
+      and as_lines delivers exactly its lines (no empty element), before and after freezing; `num-lines == K` says the
+      same plain and in `&&`.
+
 The OS side (text files, io.StringIO, os.fstat, filecmp) is replaced by the documented-contract
 stand-ins of harness/_C14_fakefs.py (self-tested against real files).
 """
@@ -1873,6 +1880,22 @@ def selftest(tier) -> int:
                                                 spec, t, m, real, fake))
                                         n += 1
                                         scratch.remove(rd)
+        # K7: line-oriented transformers on degenerate texts -- real files against the stand-ins
+        k7_texts = ['', ' ', '\n', ' \t\n', ' \n \n', '\n\n\n ', 'a', ' a', 'a \n\n', ' \na\n\n', 'a\n \n\ta']
+        for layer in K7_LAYERS:
+            for spec in (('file', layer), ('str', 'writer', layer, 'all'), ('file', 'strip-ts', layer)):
+                for t in (k7_texts if thorough else k7_texts[:8]):
+                    for m in (1, 100):
+                        k += 1
+                        rd = os.path.join(d, 'r%d' % k)
+                        os.mkdir(rd)
+                        real = _scenario(spec, SEQ_UNFROZEN_THEN_FROZEN, (t, '', ''), m, rd)
+                        fake = _scenario(spec, SEQ_UNFROZEN_THEN_FROZEN, (t, '', ''), m)
+                        if real != fake:
+                            raise AssertionError('real files and stand-ins differ: %r %r m=%r\nreal: %r\nfake: %r' % (
+                                spec, t, m, real, fake))
+                        n += 1
+                        scratch.remove(rd)
         parts_list = [('a', 'b\n'), ('a\n', 'b'), ('', 'a'), ('a', ''), ('é\n', 'a\né'), ('a\x0cb', 'c'), ('a\r', '\nb')]
         for spec in [(('concat', 'str', 'str'),), (('concat', 'str', 'file'),), (('concat', 'file', 'str'), 'filter'),
                      (('concat', 'str', 'prog'),), (('concat', 'prog', 'str'),), (('concat', 'str', 'prog-i'),),
@@ -1941,6 +1964,10 @@ ASSUMPTIONS = [
     'the pattern on a line is replaced; -preserve-new-lines excludes the new-line that ends a line; -at limits it to the '
     'selected lines); the replacement string is the value of a string symbol (real new-line characters), compared by the '
     'self-test with the same string spelled with \\n escapes',
+    'K7: what `strip`, `char-case`, `filter` / `grep` / `filter -line-nums` do to the CHARACTERS is taken from their '
+    'documentation (white space at the beginning / end of the text removed; cased characters converted; matched lines '
+    'kept, the contents of a line exclude its new-line, line numbers start at 1 and negative ones count from the end); '
+    'white space = space, tab, new-line',
 ]
 
 OUTSIDE = [
@@ -1953,4 +1980,6 @@ OUTSIDE = [
     'K6: patterns other than the literals b, new-line, b + new-line; replacement strings other than those over '
     '{x, new-line} of the stated length, group references; line selections other than `line-num == 2`; the `run` '
     'transformer (a program may also change the number of lines: its output is a file, K2 "fdwriter" / K5)',
+    'K7: white space other than space, tab, new-line; chains of more than two of the line-oriented transformers; '
+    '`replace-test-case-dirs` and `run`',
 ]
